@@ -421,9 +421,63 @@ def rule_w7(repo, col):
                "can still be true, so another head is wrongly fixed to TRUE" % (w, w, sorted(summed), sorted(scanned)), construct="is_one(w): summed vs scanned heads", function="ConstraintAD.add")
 
 
+def rule_w9(repo, col):
+    """LogicFormula.propagate: a parent that already has a value is re-queued with ITS OWN recorded value (true -> +parent, false -> -parent)"""
+    import re
+    from .. import dtable
+
+    f = repo.func("problog.formula", "LogicFormula.propagate")
+    m = f.module
+    loops = [n for n in ast.walk(f.node) if isinstance(n, ast.For) and norm(n.iter).startswith("atoms_in_rules[") and isinstance(n.target, ast.Name)]
+    if len(loops) != 1:
+        raise AnalysisError("LogicFormula.propagate: loop over the waiting parents not found")
+    lp = loops[0]
+    P = lp.target.id
+    cls = repo.cls("problog.formula", "LogicFormula")
+    tv = {}
+    for k in repo.mro(cls):
+        for st in getattr(getattr(k, "node", None), "body", []) or []:
+            if isinstance(st, ast.Assign) and isinstance(st.targets[0], ast.Name) and st.targets[0].id in ("TRUE", "FALSE") and isinstance(st.value, ast.Constant):
+                tv.setdefault(st.targets[0].id, st.value.value)
+    if set(tv) != {"TRUE", "FALSE"}:
+        raise AnalysisError("LogicFormula.TRUE / FALSE constants not found")
+    paths = dtable.extract_block(lp.body, opaque_loops=True)
+    n = 0
+    for scen in ("TRUE", "FALSE"):
+        val = tv[scen]
+        mapping = [("%s in current" % P, True), ("abs(%s) in current" % P, True), ("self.TRUE", tv["TRUE"]), ("self.FALSE", tv["FALSE"]),
+                   ("current[abs(%s)]" % P, val), ("current[%s]" % P, val), ("current.get(abs(%s))" % P, val), ("current.get(%s)" % P, val)]
+        ps = dtable.compatible(paths, mapping)
+        foreign = [s_ for p_ in ps for s_, _, _ in p_.conds if dtable.eval_atom(s_, mapping, None) is None]
+        if foreign:
+            a_ = foreign[0]
+            if not re.search(r"\bcurrent\b", a_) and not re.search(r"\b%s\b" % P, a_):
+                n += 1
+                col.fail("W9", m, lp, "propagate re-queues a waiting parent under the test `%s`, which says nothing about the parent: the sign of the re-queued literal must be the parent's own "
+                         "recorded value (current[abs(%s)]) - with the value of the child, a disjunction known to be true is processed again as false when one of its disjuncts becomes "
+                         "false, and its other disjuncts are forced false" % (a_[:80], P), construct="propagate: parent re-queued on a foreign test", function="LogicFormula.propagate")
+                return
+            raise AnalysisError("LogicFormula.propagate: re-queue test not decidable: %s" % a_[:100])
+        if len(ps) != 1:
+            raise AnalysisError("LogicFormula.propagate: %d paths for a parent recorded %s" % (len(ps), scen))
+        adds = [a for fn, a, _ in ps[0].calls if fn == "queue.add"]
+        if len(adds) != 1:
+            raise AnalysisError("LogicFormula.propagate: a waiting parent is not re-queued exactly once")
+        lit = adds[0][0].replace(" ", "")
+        sign = "+" if lit in ("abs(%s)" % P, P) else "-" if lit in ("-abs(%s)" % P, "-%s" % P) else None
+        if sign is None:
+            raise AnalysisError("LogicFormula.propagate: re-queued literal not understood: %s" % lit)
+        n += 1
+        col.decide("W9", m, lp, sign == ("+" if scen == "TRUE" else "-"), "a parent recorded %s is re-queued as %sparent" % (scen, "+" if scen == "TRUE" else "-"),
+                   "propagate re-queues a parent whose recorded value is %s as %s: the literal must carry the parent's recorded truth value, otherwise the parent is processed with the "
+                   "opposite value" % (scen, lit), construct="propagate: parent recorded %s re-queued" % scen, function="LogicFormula.propagate")
+    col.floor("W9.requeue_cases", n, 2)
+
+
 def run(repo, col):
     col.rule("W7", "AD constraint propagation: summed heads == scanned heads")
     col.rule("W8", "propagate: value of a child literal (sign handling)")
+    col.rule("W9", "propagate: a waiting parent is re-queued with its own recorded value")
     col.rule("W6", "evidence propagation on the formula: unit inference only when the parent is not already explained")
     col.rule("W1", "weight propagation constants")
     col.rule("W2", "propagate_evidence lookup table")
@@ -437,3 +491,4 @@ def run(repo, col):
     rule_w6(repo, col)
     rule_w7(repo, col)
     rule_w8(repo, col)
+    rule_w9(repo, col)
